@@ -82,7 +82,9 @@ func VerifC18NewServer(m *Manager, proxyCfg *models.Proxy) (*Server, error) {
 	s.ServerVersion = util.CompactServerVersion(proxyCfg.ServerVersion)
 	s.ServerVersionCompareStatus = util.NewVersionCompareStatus(proxyCfg.ServerVersion)
 	s.sessionTimeout = time.Hour
-	tw, err := util.NewTimeWheel(timeWheelUnit, timeWheelBucketsNum)
+	// a one-second tick: the wheel drains its pipeline once per tick, and
+	// TimeWheel.Remove (end of Session.Run) blocks while the pipeline is full
+	tw, err := util.NewTimeWheel(time.Second, timeWheelBucketsNum)
 	if err != nil {
 		return nil, err
 	}
